@@ -734,22 +734,22 @@ def _rec_sequencer():
 
     class Rec(Sequencer):
         def play_event(self, note, channel, velocity):
-            specfuns._TRACE.append(("play_event", note, channel, velocity))
+            specfuns._trace_add(("play_event", note, channel, velocity))
 
         def stop_event(self, note, channel):
-            specfuns._TRACE.append(("stop_event", note, channel))
+            specfuns._trace_add(("stop_event", note, channel))
 
         def cc_event(self, channel, control, value):
-            specfuns._TRACE.append(("cc_event", channel, control, value))
+            specfuns._trace_add(("cc_event", channel, control, value))
 
         def instr_event(self, channel, instr, bank):
-            specfuns._TRACE.append(("instr_event", channel, instr, bank))
+            specfuns._trace_add(("instr_event", channel, instr, bank))
 
         def sleep(self, seconds):
-            specfuns._TRACE.append(("sleep", seconds))
+            specfuns._trace_add(("sleep", seconds))
 
         def notify_listeners(self, msg_type, params):
-            specfuns._TRACE.append(("notify", msg_type, params))
+            specfuns._trace_add(("notify", msg_type, params))
     return Rec()
 
 
@@ -808,7 +808,7 @@ def _rec_observer():
     for nm in names:
         def mk(nm):
             def f(self, *a):
-                specfuns._TRACE.append(("observer." + nm, self) + tuple(a))
+                specfuns._trace_add(("observer." + nm, self) + tuple(a))
             return f
         setattr(Rec, nm, mk(nm))
     return Rec()
@@ -1310,3 +1310,37 @@ def b_comp_add_track(tier, rnd):
             cases.append((c, x))
     return {"rule": "compositions of 0, 1, 3 tracks x {a new track, a track equal to one it holds, the same object again, "
                     "a Bar (refused)}", "cases": cases}
+
+
+@battery("seq_bar")
+def b_seq_bar(tier, rnd):
+    from mingus.containers.bar import Bar
+    ncs = _seq_ncs(rnd)
+    cases = []
+    for i in range(80 if tier == "quick" else 800):
+        b = Bar("C", rnd.choice([(4, 4), (3, 4), (6, 8), (0, 0)]))
+        for _ in range(rnd.choice([0, 1, 2, 3, 4, 6])):
+            nc = rnd.choice(ncs)
+            if nc is not None and rnd.random() < 0.3:
+                import copy
+                nc = copy.copy(nc)
+                nc.bpm = rnd.choice([30, 60, 90, 120, 121, 240])
+            v = rnd.choice([1, 2, 4, 8, 16, 3, 6, 1.5, 5, 0.5])
+            b.bar.append([b.current_beat, v, nc])
+            b.current_beat += 1.0 / v
+        cases.append((_rec_sequencer(), b, rnd.choice([1, 9, 16]), rnd.choice([60, 120, 200, 47])))
+    return {"rule": "seeded bars of 0..6 entries (rests, containers of 0..4 notes, containers with a tempo; binary, dotted, "
+                    "tuplet and breve values; also unbounded meter) x 3 channels x 4 tempi", "cases": cases}
+
+
+@battery("seq_track")
+def b_seq_track(tier, rnd):
+    from mingus.containers.track import Track
+    cases = []
+    bars = [c[1] for c in b_seq_bar(tier, rnd)["cases"]]
+    for i in range(40 if tier == "quick" else 400):
+        t = Track()
+        t.bars = [rnd.choice(bars) for _ in range(rnd.choice([0, 1, 2, 3, 5]))]
+        cases.append((_rec_sequencer(), t, rnd.choice([1, 9]), rnd.choice([60, 120, 200])))
+    return {"rule": "seeded tracks of 0..5 bars drawn from the 'seq_bar' battery (tempo changes carry over bar lines) x 2 "
+                    "channels x 3 tempi", "cases": cases}
